@@ -3,6 +3,7 @@
 package main
 
 import (
+	"crypto/tls"
 	"fmt"
 	"net/http"
 	"net/url"
@@ -73,6 +74,15 @@ func driveC16(t *testing.T, out *vEmitter) {
 		{"force-https", func(o *options.Options) {
 			o.Cookie.Secure = false
 		}},
+		// a client-IP header other than the default is configured although reverse-proxy mode is off
+		{"trusted+configured-client-ip-header", func(o *options.Options) {
+			o.TrustedIPs = []string{"10.0.0.0/8"}
+			o.RealClientIPHeader = "X-Forwarded-For"
+		}},
+		{"trusted+configured-client-ip-header-2", func(o *options.Options) {
+			o.TrustedIPs = []string{"10.0.0.0/8"}
+			o.RealClientIPHeader = "CF-Connecting-IP"
+		}},
 		{"insecure-cookie-relative", func(o *options.Options) {
 			o.Cookie.Secure = false
 			o.SkipProviderButton = true
@@ -97,8 +107,12 @@ func driveC16(t *testing.T, out *vEmitter) {
 		}
 		// the request's own Host (also empty: HTTP/1.0 without a Host header) and peer address (TCP, or "@" as
 		// net/http reports it on a unix-socket listener)
-		type origin struct{ host, remote string }
-		origins := []origin{{"app.example.com", ""}, {"app.example.com", "192.0.2.10:40000"}, {"", "192.0.2.10:40000"}, {"app.example.com", "@"}, {"", "@"}}
+		type origin struct {
+			host, remote string
+			tls          bool // the connection to the proxy itself is TLS
+		}
+		origins := []origin{{"app.example.com", "", false}, {"app.example.com", "192.0.2.10:40000", false}, {"", "192.0.2.10:40000", false}, {"app.example.com", "@", false}, {"", "@", false},
+			{"app.example.com", "192.0.2.10:40000", true}, {"app.example.com", "10.9.9.9:40000", false}}
 		for _, og := range origins {
 		for _, ep := range endpoints {
 			hostHdr, remoteAddr := og.host, og.remote
@@ -107,6 +121,9 @@ func driveC16(t *testing.T, out *vEmitter) {
 				t.Fatal(err)
 			}
 			baseReq.RemoteAddr = remoteAddr
+			if og.tls {
+				baseReq.TLS = &tls.ConnectionState{HandshakeComplete: true}
+			}
 			base := vDecision(e, e.serve(baseReq))
 			// subsets: each header alone, all together, and a few pairs
 			var subsets [][][2]string
@@ -120,6 +137,9 @@ func driveC16(t *testing.T, out *vEmitter) {
 					continue
 				}
 				req.RemoteAddr = remoteAddr
+				if og.tls {
+					req.TLS = &tls.ConnectionState{HandshakeComplete: true}
+				}
 				got := vDecision(e, e.serve(req))
 				out.Obs("pair-off", true, vL("pair", vS(c.name), vS(ep.target), vI(int64(len(hs))), vBool(got == base)))
 				out.Stat("pairs_reverse_proxy_off", 1)
